@@ -15,11 +15,12 @@ ENGINES = {
     "shadow_crdt": {"cwd": "$CACHE/shadow/crdt", "pkg": [], "slots": 4, "prepare": "prepare_crdt"},
     "shadow_sync": {"cwd": "$CACHE/shadow/sync", "pkg": [], "slots": 2, "prepare": "prepare_sync"},
     "shadow_canonical": {"cwd": "$CACHE/shadow/canonical", "pkg": [], "slots": 2, "prepare": "prepare_canonical"},
+    "ext_radicle": {"cwd": "$VERIF/harness/ext/radicle", "pkg": [], "slots": 3, "copy_lock": True},
     "ext_c27": {"cwd": "$VERIF/harness/ext/c27", "pkg": [], "slots": 3, "copy_lock": True},
 }
-SETUP_ENGINES = ["node", "ext_c27", "shadow_crdt", "shadow_sync", "shadow_canonical"]
+SETUP_ENGINES = ["node", "ext_c27", "shadow_crdt", "shadow_sync", "shadow_canonical", "ext_radicle"]
 # replay include files that exist in harness sources of an engine but belong to no registered harness (yet)
-EXTRA_REPLAY_FILES = {"shadow_canonical": ["shadow_canonical"], "shadow_sync": ["shadow_sync"], "shadow_crdt": ["shadow_crdt"], "ext_c27": ["ext_c27"], "node": ["wire_c13", "wire_c14", "service_c29", "limiter"]}
+EXTRA_REPLAY_FILES = {"ext_radicle": ["ext_radicle"], "shadow_canonical": ["shadow_canonical"], "shadow_sync": ["shadow_sync"], "shadow_crdt": ["shadow_crdt"], "ext_c27": ["ext_c27"], "node": ["wire_c13", "wire_c14", "service_c29", "limiter"]}
 
 Q = ["quick", "thorough"]
 T = ["thorough"]
@@ -269,4 +270,30 @@ PROPERTIES["C03"] = {
     ],
     "outside": ["more than 4 commits / 4 delegates", "Canonical::reference / default_branch (read refs from storage) and Repository::set_head", "commit ids are topologically numbered (oid order vs ancestry order is not varied independently)"],
     "assumptions": ["merge_base returns some best common ancestor or NotFound (git's contract)"],
+}
+
+# ---------------------------------------------------------------------------------------------
+# C19 / C21 (external harness crate over the public API of the radicle crate)
+
+_F19 = ["radicle::identity::doc::Delegates::new", "radicle::identity::doc::Threshold::new", "radicle::identity::doc::Version::{new,is_valid_version}"]
+_c19h = [H("c19_version_new", "ext_radicle", "c19", "ext_radicle", tiers=Q, covers=1, functions=_F19, stubs=[], bounds="every u32 version number")]
+for _p, _t in [("empty", Q), ("0", Q), ("00", Q), ("01", Q), ("000", T), ("001", Q), ("010", Q), ("011", T), ("012", Q), ("0120", T), ("0011", T), ("0101", T), ("0112", T)]:
+    _c19h.append(H(f"c19_delegates_{_p}", "ext_radicle", "c19", "ext_radicle", tiers=_t, covers=1, functions=_F19, stubs=[], timeout={"quick": 900, "thorough": 3000},
+        bounds=f"delegate list with equality pattern [{_p}] over 3 concrete keys (entry i = key pattern[i]); threshold: every usize value"))
+PROPERTIES["C19"] = {
+    "harnesses": _c19h,
+    "outside": ["JSON (serde) decoding, canonical encoding and the blob hash that defines the repository id (serde_json, SHA-1): only the validation kernel that RawDoc::verified / TryFrom<RawDoc> funnels through is checked",
+                "delegate lists longer than 4 entries and the MAX_DELEGATES (255) branch", "symbolic key bytes (keys are concrete, their equality pattern is enumerated)"],
+    "assumptions": ["RawDoc::verified is `Delegates::new` followed by `Threshold::new` (read off the source)"],
+}
+
+_F21 = ["radicle::node::Alias::{from_str,as_str}", "core::str::from_utf8"]
+PROPERTIES["C21"] = {
+    "harnesses": [
+        H(f"c21_alias_len{n}", "ext_radicle", "c21", "ext_radicle", tiers=(Q if n <= 2 else T), covers=1, functions=_F21, stubs=[], timeout={"quick": 900, "thorough": 3000},
+          bounds=f"{n} fully symbolic bytes, restricted to valid UTF-8 by the real str::from_utf8: parse never panics, print(parse(s)) == s, re-parse is the identity, ASCII control/white-space bytes and empty input are rejected, printable ASCII is accepted")
+        for n in (1, 2, 3)
+    ],
+    "outside": ["public keys, DIDs and repository ids (multibase/base58 makes the Kani compiler panic and is a 32-byte big-number division loop)", "user agents (str::split / split_once over symbolic bytes does not finish in 900 s even at 1 symbolic byte)", "aliases longer than 3 bytes and the 32-byte limit", "Unicode (non-ASCII) control and white-space characters are only checked for not panicking"],
+    "assumptions": [],
 }
